@@ -464,7 +464,9 @@ fn run_verify(v: u32, tag: &str, keys: &PublicKeyMap, ev: Obj) -> Outcome {
         "signed" | "unsigned-mut" | "sig-extra-removed" => &["all"],
         "redacted" => &["all", "signatures"],
         "strip-mut" => &["signatures"],
-        "kept-mut" | "sig-required-removed" | "sig-required-corrupt" | "key-missing" | "key-wrong" => &["err"],
+        "kept-mut" | "sig-required-removed" | "sig-required-corrupt" | "key-missing" | "key-wrong" | "oversize" => {
+            &["err"]
+        }
         _ => &["all", "signatures", "err"],
     };
     if !want.contains(&imp) {
@@ -926,7 +928,8 @@ fn gen_verify_family(rng: &mut Rng, out: &mut Vec<Req>) {
         let same_signed = redacted_bytes(&e2, &r) == redacted_bytes(&ev, &r);
         let same_hashed = hashed_bytes(&e2) == hashed_bytes(&ev);
         let servers_same = spec_servers(v, &e2) == spec_servers(v, &ev);
-        let tag = if selects_servers(&place) || !servers_same {
+        // with no demanded server (a third-party invite from room version 3 on) nothing is verified
+        let tag = if selects_servers(&place) || !servers_same || required.is_empty() {
             "free"
         } else if same_signed && !same_hashed {
             "strip-mut"
@@ -1129,12 +1132,76 @@ fn fixed_servers_cases(out: &mut Vec<Req>) {
     }
 }
 
-fn gen(rng: &mut Rng, n: usize, _tier: &str) -> Vec<Req> {
+/// Invites created from a third-party invite, signed by the invited user's server only (all the
+/// specification demands), and their redacted copies: room versions 1–10 strip
+/// `content.third_party_invite`, so the copy is no longer exempt from the sender's signature.
+/// The copies carry no expectation here (tag `free`); the one that contradicts the property's
+/// sentence is kept in `corpus/C03/` with the tag `redacted` and recorded in `findings/C03.json`.
+fn fixed_third_party_invites(out: &mut Vec<Req>) {
+    for v in 1..=11u32 {
+        let r = rules(v);
+        let mut ev = to_obj(json!({
+            "type": "m.room.member", "sender": "@a:a.example", "state_key": "@c:b.example",
+            "room_id": "!r:a.example", "origin_server_ts": 1,
+            "content": {"membership": "invite", "displayname": "c",
+                "third_party_invite": {"display_name": "c", "signed": {"mxid": "@c:b.example", "token": "t",
+                    "signatures": {"id.example": {"ed25519:0": "c2ln"}}}}}
+        }));
+        if v <= 2 {
+            ev.insert("event_id".into(), to_val(json!("$e:b.example")));
+        }
+        let s = Signer { entity: "b.example".into(), version: "1".into(), seed: seed_for("b.example") };
+        let keys = keymap_of(std::slice::from_ref(&s));
+        if hash_and_sign_event(&s.entity, &key_pair(&s.seed, &s.version), &mut ev, &r.redaction).is_err() {
+            continue;
+        }
+        out.push(verify_req(v, "signed", &keys, &ev, "verify.3pid-signed"));
+        if let Ok(red) = redact(ev.clone(), &r.redaction, None) {
+            out.push(verify_req(v, "free", &keys, &red, "verify.3pid-redacted-copy"));
+        }
+        // a change to a field redaction keeps: from room version 3 on no server is demanded of a
+        // third-party invite, so no signature is looked at and the change goes through
+        let mut changed = ev.clone();
+        changed.insert("state_key".into(), to_val(json!("@d:b.example")));
+        out.push(verify_req(v, "free", &keys, &changed, "verify.3pid-kept-change"));
+    }
+}
+
+/// Events whose hashed canonical form exceeds 65 535 bytes: `hash_and_sign_event` must refuse them
+/// (object untouched), and an event grown past the limit after signing — in a part redaction strips,
+/// so that the signatures stay valid — must fail in `verify_event` at the content-hash step.
+fn oversize_cases(rng: &mut Rng, out: &mut Vec<Req>) {
+    let v = rng.range(1, 11) as u32;
+    let r = rules(v);
+    let mut ev = to_obj(json!({
+        "type": "m.room.message", "sender": "@a:a.example", "event_id": "$e:a.example", "room_id": "!r:a.example",
+        "content": {"body": "small", "msgtype": "m.text"}
+    }));
+    let s = new_signer(rng, "a.example");
+    let keys = keymap_of(std::slice::from_ref(&s));
+    let mut big = ev.clone();
+    if let Some(Val::Object(c)) = big.get_mut("content") {
+        c.insert("body".into(), Val::String("x".repeat(65_600)));
+    }
+    out.push(sign_req(v, &s, &big, "sign.oversize"));
+    if hash_and_sign_event(&s.entity, &key_pair(&s.seed, &s.version), &mut ev, &r.redaction).is_ok() {
+        if let Some(Val::Object(c)) = ev.get_mut("content") {
+            c.insert("body".into(), Val::String("y".repeat(65_600)));
+        }
+        out.push(verify_req(v, "oversize", &keys, &ev, "verify.oversize"));
+    }
+}
+
+fn gen(rng: &mut Rng, n: usize, tier: &str) -> Vec<Req> {
     let mut v = Vec::new();
+    for _ in 0..(if tier == "thorough" { 10 } else { 1 }) {
+        oversize_cases(rng, &mut v);
+    }
     for ver in 1..=11u32 {
         v.push(Req::new(format!("c03.sigrules {ver}"), "sigrules"));
     }
     fixed_servers_cases(&mut v);
+    fixed_third_party_invites(&mut v);
     while v.len() < n {
         match rng.below(10) {
             0 => gen_servers_case(rng, &mut v, false),
